@@ -1,0 +1,38 @@
+//go:build verif
+
+// Verification hooks (read-only): compiled only with -tags verif.
+
+package scramblesuit
+
+import "fmt"
+
+// VerifConstants returns the package constants as the compiler evaluated them.
+func VerifConstants() map[string]string {
+	m := map[string]string{}
+	put := func(k string, v interface{}) { m[k] = fmt.Sprint(v) }
+	put("maxSegmentLength", maxSegmentLength)
+	put("maxPayloadLength", maxPayloadLength)
+	put("sharedSecretLength", sharedSecretLength)
+	put("clientHandshakeTimeout", int64(clientHandshakeTimeout))
+	put("minLenDistLength", minLenDistLength)
+	put("maxLenDistLength", maxLenDistLength)
+	put("keyLength", keyLength)
+	put("pktPrngSeedLength", pktPrngSeedLength)
+	put("pktOverhead", pktOverhead)
+	put("pktHdrLength", pktHdrLength)
+	put("pktPayload", pktPayload)
+	put("pktNewTicket", pktNewTicket)
+	put("pktPrngSeed", pktPrngSeed)
+	put("ticketKeyLength", ticketKeyLength)
+	put("ticketLength", ticketLength)
+	put("ticketLifetime", ticketLifetime)
+	put("ticketMinPadLength", ticketMinPadLength)
+	put("ticketMaxPadLength", ticketMaxPadLength)
+	put("minHandshakeLength", minHandshakeLength)
+	put("maxHandshakeLength", maxHandshakeLength)
+	put("dhMinPadLength", dhMinPadLength)
+	put("dhMaxPadLength", dhMaxPadLength)
+	put("macLength", macLength)
+	put("kdfSecretLength", kdfSecretLength)
+	return m
+}
